@@ -304,30 +304,75 @@ Proof.
     split; [rewrite Z.mul_1_l; exact HF|lia].
 Qed.
 
-(* the Rational constructor / QField::ratrecon for any residue f <= m (negative ones included), any flags / recurs *)
-Lemma widen_always f m fr : 1 <= m -> f <= m ->
-  forall fuel newk cur r, 1 <= newk -> always f m cur ->
+(* without forcereduce ratrecon always answers true: the widening loops then never iterate *)
+Lemma finish_noreduce f m k s : fst (fst (finish f m k false s)) = true.
+Proof. destruct s as [[[r0 t0] r1] t1]. reflexivity. Qed.
+Lemma ratrecon_noreduce f m k r : ratrecon f m k false = Some r -> fst (fst r) = true.
+Proof.
+  unfold ratrecon, ratrecon_fuel. destruct (loop (fuel_of m) k m 0 (init_r1 f m) 1) as [s|]; [|discriminate].
+  intros R; inversion R. apply finish_noreduce.
+Qed.
+
+(* a bound above the modulus with an unreduced residue f >= k (what the widening loop of Rational(f,m,k,true)
+   reaches for f > m): one swap, the loop stops at (f,1,m,0), and the second candidate is (f - q m) / 1 *)
+Lemma ratrecon_bigk f m k : 2 <= m -> m < k -> k <= f ->
+  ratrecon f m k true = Some (true, f - Z.quot (f + m - k) m * m, 1).
+Proof.
+  intros Hm Hk Hf. unfold ratrecon, ratrecon_fuel.
+  assert (Hi : init_r1 f m = f) by (unfold init_r1; destruct (Z.ltb_spec f 0); lia). rewrite Hi.
+  assert (Hfu : exists n, fuel_of m = S n).
+  { unfold fuel_of. pose proof (Z.log2_nonneg m). exists (Z.to_nat (2 * Z.log2 m + 3)). lia. }
+  destruct Hfu as [n ->]. cbn [loop].
+  destruct (Z.geb_spec f k) as [_|]; [|lia].
+  rewrite (Z.quot_small m f) by lia. rewrite !Z.mul_0_r, !Z.sub_0_r.
+  rewrite loop_stop by lia.
+  unfold finish, norm_num, norm_den. cbn [Z.ltb Z.compare].
+  rewrite Z.gcd_0_r, (Z.abs_eq m) by lia.
+  destruct (Z.eqb_spec m 1); [lia|]. cbn [negb].
+  destruct (Z.eqb_spec m 0); [lia|].
+  rewrite !Z.mul_0_r, Z.sub_0_r. cbn [Z.ltb Z.compare]. rewrite Z.gcd_1_r. reflexivity.
+Qed.
+
+(* the Rational constructor / QField::ratrecon for EVERY residue f, any flags / recurs *)
+Lemma widen_always f m fr : 2 <= m ->
+  forall fuel newk cur r, 1 <= newk -> always f m cur -> (fr = false -> fst (fst cur) = true) ->
   widen fuel f m f newk fr cur = Some r -> always f m r.
 Proof.
-  intros Hm Hf fuel; induction fuel as [|n IH]; intros newk cur r Hn Hc; cbn [widen];
+  intros Hm fuel; induction fuel as [|n IH]; intros newk cur r Hn Hc Hfr; cbn [widen];
     destruct cur as [[ok a] b].
   - destruct (negb ok && (newk <? f)); [discriminate|]. intros R; inversion R; subst; exact Hc.
   - destruct (negb ok && (newk <? f)) eqn:Cnd; [|intros R; inversion R; subst; exact Hc].
-    apply andb_true_iff in Cnd. destruct Cnd as [_ Hlt]. apply Z.ltb_lt in Hlt.
-    destruct (ratrecon f m newk fr) as [r'|] eqn:E; [|discriminate].
-    apply IH; [lia|].
-    assert (Hd : newk <= m \/ 0 <= f < newk \/ f < 0) by lia.
-    exact (ratrecon_always f m newk fr r' Hm ltac:(lia) Hd E).
+    apply andb_true_iff in Cnd. destruct Cnd as [Hok Hlt]. apply Z.ltb_lt in Hlt.
+    assert (fr = true) by (destruct fr; [reflexivity|]; cbn in Hfr; rewrite (Hfr eq_refl) in Hok; discriminate).
+    subst fr.
+    destruct (ratrecon f m newk true) as [r'|] eqn:E; [|discriminate].
+    apply IH; [lia| |discriminate].
+    destruct (Z.le_gt_cases newk m) as [Le|Gt].
+    + exact (ratrecon_always f m newk true r' ltac:(lia) ltac:(lia) (or_introl Le) E).
+    + rewrite (ratrecon_bigk f m newk Hm Gt ltac:(lia)) in E. inversion E; subst r'. unfold always.
+      split; [|lia]. rewrite Z.mul_1_l. exists (- Z.quot (f + m - newk) m). lia.
 Qed.
 
-Definition RatCtor_always := forall f m k flags recurs r, 1 <= m -> 1 <= k <= m -> f <= m ->
+Definition RatCtor_always := forall f m k flags recurs r, 2 <= m -> 1 <= k <= m ->
   RatCtor f m k flags recurs = Some r -> always f m r.
 Lemma ratctor_always : RatCtor_always.
 Proof.
-  intros f m k flags recurs r Hm Hk Hf. unfold RatCtor.
+  intros f m k flags recurs r Hm Hk. unfold RatCtor.
   destruct (ratrecon f m k flags) as [r0|] eqn:E; [|discriminate].
-  pose proof (ratrecon_always f m k flags r0 Hm (proj1 Hk) (or_introl (proj2 Hk)) E) as A0.
+  pose proof (ratrecon_always f m k flags r0 ltac:(lia) (proj1 Hk) (or_introl (proj2 Hk)) E) as A0.
   destruct recurs.
-  - intros W. exact (widen_always f m flags Hm Hf _ (k + 1) r0 r ltac:(lia) A0 W).
+  - intros W. apply (widen_always f m flags Hm (widen_fuel f) (k + 1) r0 r ltac:(lia) A0); [|exact W].
+    intros ->. exact (ratrecon_noreduce f m k r0 E).
   - intros R; inversion R; subst; exact A0.
+Qed.
+
+(* QField<Rational>::ratrecon(r,f,m,k,recurs) and (r,f,m,recurs) are the constructor with k resp. sqrt m *)
+Definition QField_always := forall f m k flags recurs r, 2 <= m ->
+  (1 <= k <= m -> QF_ratrecon_k f m k flags recurs = Some r -> always f m r) /\
+  (QF_ratrecon f m flags recurs = Some r -> always f m r).
+Lemma qfield_always : QField_always.
+Proof.
+  intros f m k flags recurs r Hm. split.
+  - intros Hk. apply ratctor_always; assumption.
+  - apply ratctor_always; [assumption|apply sqrt_range; lia].
 Qed.
